@@ -14,22 +14,26 @@ RULE = ("worlds rich in impl blocks (0-6 integer / pointer / array-pointer argum
 ASSUMPTIONS = ["run-time behaviour of a wrapper is observed through its emitted shape (O4 execution only in the thorough tier)"]
 PRIMS = ['u8', 'u16', 'u32', 'u64', 'u128', 'i8', 'i16', 'i32', 'i64', 'i128', 'bool', 'f32', 'f64']
 
-def ty_matches(t, s):
-    """does canonical emitted type string `s` denote the input type expression `t`? (names: by last segment)"""
+def ty_matches(t, s, bind=None):
+    """does canonical emitted type string `s` denote the input type expression `t`?  Names: by the full path the scoping rule
+    selects when `bind` (world.binder) is given and knows the name, else by last segment"""
     k = tag(t)
     if k == 'cptr':
-        return s.startswith('*const ') and ty_matches(t[1], s[7:])
+        return s.startswith('*const ') and ty_matches(t[1], s[7:], bind)
     if k == 'mptr':
-        return s.startswith('*mut ') and ty_matches(t[1], s[5:])
+        return s.startswith('*mut ') and ty_matches(t[1], s[5:], bind)
     if k == 'arr':
         if not (s.startswith('[') and s.endswith(']')): return False
         from ..rustlay import split_array
         inner, n = split_array(s)
-        return n == t[2] and ty_matches(t[1], inner)
+        return n == t[2] and ty_matches(t[1], inner, bind)
     if k == 'unk':
         return s == '[u8;%d]' % t[1]
     if k == 'id':
         if t[1] == 'void': return s == '::std::ffi::c_void'
+        b = bind(t[1]) if bind is not None else None
+        if b is not None and len(b) > 1:
+            return s == 'crate::' + '::'.join(b)
         if t[1] in PRIMS: return s == t[1]
         return s.startswith('crate::') and s.endswith('::' + t[1])
     return False
@@ -72,6 +76,8 @@ def generate(rng, tier):
                     c = replace_at(c, impl_p[:-1], newparent)
             c[1] = c[1] + '-' + kind
         out.append(c)
+    from .c11 import gen_case
+    out += [gen_case(rng, 'clash%d' % i) for i in range(n // 6)]
     from .. import o4exec
     return out + o4exec.exec_worlds(rng, 10 if tier == 'quick' else 200, **dict(p_impl=0.85, p_vftable=0.2, p_cc=0.5))
 
@@ -118,7 +124,9 @@ def judge(c, impl, model):
     def report(reason, detail):
         if reason not in seen:
             seen.add(reason); fs.append(Finding('O', reason, cid, detail))
+    binders = {}
     for (mp, tname, f) in decls:
+        bind = binders.setdefault(tuple(mp), binder(c, mp))
         items = file_items(files, mp)
         ims = find_items(items, 'impl', tname)
         found = [mt for im in ims for mt in impl_methods(im) if method_name(mt) == fn_name(f)]
@@ -148,7 +156,7 @@ def judge(c, impl, model):
                     mut = (a == 'mutself')
                     ok = ok and sg == [S('this'), S('mut' if mut else 'const')] and ca == S('selfmut' if mut else 'selfconst') and pm == a
                 else:
-                    ok = ok and tag(sg) == 'arg' and sg[1] == a[1] and ty_matches(a[2], sg[2]) \
+                    ok = ok and tag(sg) == 'arg' and sg[1] == a[1] and ty_matches(a[2], sg[2], bind) \
                         and ca == [S('v'), a[1]] and tag(pm) == 'arg' and pm[1] == a[1] and pm[2] == sg[2]
         if not ok:
             report('C05/signature', '%s: declared %s, emitted sig %s call %s' % (where, dump(f[4])[:160], dump(sig)[:160], dump(callargs)[:120]))
@@ -156,7 +164,7 @@ def judge(c, impl, model):
         dr = fn_ret(f)
         if dr is None:
             if rets != (None, None): report('C05/return-type', '%s: none declared, emitted %s' % (where, rets))
-        elif rets[0] is None or rets[0] != rets[1] or not ty_matches(dr, rets[0]):
+        elif rets[0] is None or rets[0] != rets[1] or not ty_matches(dr, rets[0], bind):
             report('C05/return-type', '%s: declared %s, emitted %s' % (where, dump(dr), rets))
         if (str(mt[2]) == 'pub') != fn_pub(f):
             report('C05/visibility', where)
